@@ -580,7 +580,7 @@ def gen(ctx):
                     yield case, True
     # random part
     rng = ctx.rng('random')
-    nrand = 120 if quick else 60000
+    nrand = 360 if quick else 60000
     for i in range(nrand):
         structure = rng.choice(STRUCTURES)
         n = rng.randint(1, 4)
